@@ -548,6 +548,45 @@ func configBuiltSamplers(run *ev.Run) (evals int64) {
 	return
 }
 
+// messageLengths: for every message length up to maxLen, three messages that differ only in their
+// last byte (so they fall into different buckets) and the first one once more, on a sampler that admits
+// one entry per window: x admitted, y admitted, z admitted, x dropped. A key derived from part of the
+// message merges them.
+func messageLengths(run *ev.Run, maxLen int) (evals int64) {
+	r := newRig(1, 0, time.Second)
+	t := int64(2_000_000_000_000)
+	for L := 1; L <= maxLen; L++ {
+		p := strings.Repeat("p", L-1)
+		if L%7 == 3 {
+			p = strings.Repeat("é", (L-1)/2) + strings.Repeat("q", (L-1)%2)
+		}
+		t += 5 * int64(time.Second)
+		for i, last := range []string{"x", "y", "z", "x", "<x", "<y", "<x"} {
+			evals++
+			m := p + last
+			if last[0] == '<' { // ... and messages that differ only in their FIRST byte
+				m = last[1:] + p + "."
+			}
+			if msg := r.step(i%2 == 1, key{zapcore.InfoLevel, m}, t); msg != "" {
+				run.Report("seq:message-length", fmt.Sprintf("first=1 thereafter=0 tick=1s, %d-byte messages differing in the last byte, all at one instant; entry %d (%q...%q): %s", L, i, clip(p, 12), last, msg), map[string]any{"length": L, "entry": i})
+				r = newRig(1, 0, time.Second)
+				break
+			}
+		}
+		if L%200 == 0 {
+			r = newRig(1, 0, time.Second)
+		}
+	}
+	return
+}
+
+func clip(s string, n int) string {
+	if len(s) > n {
+		return s[:n]
+	}
+	return s
+}
+
 func main() {
 	mc.MaybeWorker(concHandler)
 	run := ev.Start("C11", "model_checking")
@@ -611,6 +650,11 @@ func main() {
 	deepSeqs := dseqs.Load()
 
 	cfgEvals := configBuiltSamplers(run)
+	msgMax := 600
+	if run.Thorough() {
+		msgMax = 5000
+	}
+	lenEvals := messageLengths(run, msgMax)
 	var items []string
 	for _, mode := range []string{"inwindow", "straddle"} {
 		for n := 0; n <= 2; n++ {
@@ -644,6 +688,7 @@ func main() {
 	run.Assume = []string{
 		"messages are bucketed by fnv32a mod 4096 per level (the 'fixed hash' of the statement); collider of \"a\" found by search: " + collider + "; non-ASCII message " + strconv.Quote(nonASCII) + " and its collider " + strconv.Quote(nonASCIICollider),
 		"timestamps are int64 nanoseconds well inside the representable range",
+		"message lengths: for every length up to the stated maximum, messages that differ only in their last byte (hence in their bucket), and messages that differ only in their first byte, at one instant on a first=1 sampler",
 		"samplers built by zap.Config: SamplingConfig{Initial, Thereafter} in 0..4 x 0..4 on the production configuration and 0..2 x 0..3 on each of the 63 other combinations of {NewProductionConfig, NewDevelopmentConfig} x Development x Encoding json/console x DisableCaller x DisableStacktrace x logging through a With+Named child; 14 same-key entries at one pinned instant; lines in the sink and hook decisions against the reference",
 		"concurrent part: the sampler's atomic operations are the scheduling points; all interleavings without a preemption bound for <=4 entries, preemption bound 4 above",
 	}
@@ -667,6 +712,8 @@ func main() {
 		"deep_sequences":               deepSeqs,
 		"configurations":               len(cfgs),
 		"config_built_sampler_entries": cfgEvals,
+		"message_length_sweep_max":     msgMax,
+		"message_length_sweep_entries": lenEvals,
 		"concurrent_drivers":           len(items),
 		"concurrent_schedules":         sum.Execs,
 		"concurrent_max_threads":       sum.MaxThreads,
